@@ -245,13 +245,27 @@ pub fn run(ctx: &Ctx) -> i32 {
     let rec = new_rec(ctx, "C12");
     {
         let mut r = rec.borrow_mut();
-        r.rule = "case = (reference encoding of a generated value / envelope, optionally with one fault: truncation, bit flip outside length fields, type byte; delivery schedule: whole, one byte at a time, single split point, or a script of chunk sizes with Pending injections; trailing sentinel bytes); oracle: async Ok(v) iff in-memory Ok(v) with equal values, async Err whenever in-memory Err, bytes taken from the stream = bytes the in-memory decoder consumed; short messages (<= 64 bytes) additionally get every split point exhaustively; non-trivial = schedule has >= 2 chunks or a Pending".into();
+        r.rule = "case = (reference encoding of a generated value / envelope, optionally with one fault: truncation, bit flip outside length fields, type byte; delivery schedule: whole, one byte at a time, single split point, or a script of chunk sizes with Pending injections; trailing sentinel bytes); oracle: async Ok(v) iff in-memory Ok(v) with equal values, async Err whenever in-memory Err, bytes taken from the stream = bytes the in-memory decoder consumed; short messages (<= 64 bytes) additionally get every split point exhaustively; non-trivial = schedule has >= 2 chunks or a Pending; plus nesting chains of depth 1..=91 through struct / list / map-value / set hops skipped in memory and asynchronously (same answer, same bytes taken)".into();
         r.assumptions = vec![
             "the scripted reader wakes itself on Pending; the executor re-polls immediately".into(),
             "inputs on which the in-memory decoder panics or that enlarge a length field are excluded and counted (C09 decides them)".into(),
         ];
     }
     if let Some(rp) = &ctx.replay {
+        if rp["sub"].as_str() == Some("depth") {
+            let c: crate::c07::DepthCase = serde_json::from_value(rp["case"]["case"].clone()).expect("replay case");
+            return match crate::c07::depth_differential(&c) {
+                Ok(()) => {
+                    println!("replay: property holds on this case");
+                    0
+                }
+                Err(f) => {
+                    println!("VIOLATION property=C12 replay={}", ctx.replay_path.clone().unwrap_or_default());
+                    println!("  key={} {}", f.key, f.msg);
+                    1
+                }
+            };
+        }
         let case: Case = serde_json::from_value(rp["case"]["case"].clone()).expect("replay case");
         return match as_presult(&case) {
             Ok(()) => {
@@ -324,6 +338,26 @@ pub fn run(ctx: &Ctx) -> i32 {
         });
         if let Some((item, f)) = res {
             report(ctx, &rec, "async-split", &Case { base: FaultCase { src: Src::Valid { item, fault: Fault::None } }, sched: Sched::ByteWise, sentinel: 3 }, &f);
+        }
+    }
+    // nesting chains of depth 1..=90 through struct / list / map-value / set hops: the
+    // asynchronous skipper refuses exactly where the in-memory skipper refuses
+    {
+        let mut reported = std::collections::BTreeSet::new();
+        for depth in 0..=90usize {
+            for hops in [vec![0u8], vec![1], vec![2], vec![3], vec![0, 1, 2, 3], vec![2, 1]] {
+                let c = crate::c07::DepthCase { depth, hops };
+                {
+                    let mut rr = rec.borrow_mut();
+                    rr.case(fp(&("depth", &c)), true, || json!(format!("{:?}", c)));
+                    rr.class("nesting chain: sync vs async skip");
+                }
+                if let Err(f) = crate::c07::depth_differential(&c) {
+                    if reported.insert(f.key.clone()) && !ctx.findings.is_open("C12", &f.key) {
+                        report(ctx, &rec, "depth", &c, &f);
+                    }
+                }
+            }
         }
     }
     let _ = TVal::Bool(true);
